@@ -381,8 +381,11 @@ class ContainerEngine:
                     u["name"] = rng.choice([n for n in NAMES
                                             if n != u["name"]])
                 if kind in ("comment", "all"):
-                    u["comment"] = rng.choice([c for c in COMMENTS
-                                               if c != u["comment"]])
+                    c_ = rng.choice([c for c in COMMENTS
+                                     if c != u["comment"]])
+                    # every other time the remark is taken back (emptied)
+                    u["comment"] = "" if u["comment"] and \
+                        (index // 8) % 2 == 0 else c_
                 if kind in ("rate", "all"):
                     u["rate"] = (int(u["rate"]) + 3) % 11
                 if kind == "rate_float":
